@@ -50,6 +50,18 @@ FrameName(e) ==
     [] OTHER -> "frame.held"
 
 Bool2Set(b, name) == IF b THEN {} ELSE {name}
+
+(* C14: vars, var_levels, var_at_level, level_of_var describe ONE bijection
+   between the declared names and the levels 0..n-1 -- the recorded order *)
+ViewsOK(e, t) ==
+  LET v == e.views
+      n == Len(t.order)
+  IN /\ Len(v.names) = n /\ v.var_levels_n = n
+     /\ \A i \in 1..n : v.at_level[i] = t.order[i]
+     /\ \A j \in DOMAIN v.names :
+           /\ v.vars[j] \in 0..(n - 1) /\ t.order[v.vars[j] + 1] = v.names[j]
+           /\ v.var_levels[j] = v.vars[j]
+           /\ v.level_of[j] = v.vars[j]
 Resolve(s, a) ==   \* two variables given by name or by level -> names
   IF a.by = "name" THEN <<a.names[1], a.names[2]>>
   ELSE <<s.order[a.levels[1] + 1], s.order[a.levels[2] + 1]>>
@@ -78,6 +90,7 @@ OpClauses(e, s, t) ==
     [] e.op = "cofactor" -> Bool2Set(CofactorC(s, t, a.u, a.names, a.vals, r), "op.cofactor")
     [] e.op = "compose" -> Bool2Set(ComposeC(s, t, a.u, a.names, a.refs, r), "op.compose")
     [] e.op = "rename" -> Bool2Set(RenameC(s, t, a.u, a.names, a.tos, r), "op.rename")
+    [] e.op = "build" -> Bool2Set(ResultIs(t, r, SeqSet(a.models)), "op.build")
     [] e.op = "cube" -> Bool2Set(CubeC(s, t, a.names, a.vals, r), "op.cube")
     [] e.op = "find_or_add" ->
          Bool2Set(FindOrAddC(s, t, a.level, a.low, a.high, r), "canon.find_or_add")
@@ -123,7 +136,7 @@ RaisedClauses(e, s, t) ==
           [] e.op = "undeclare" -> IF UndeclareMustRefuse(s, SeqSet(a.names)) THEN {} ELSE {"decl.spurious_refusal"}
           [] e.op = "count" -> IF CountMustRefuse(s, a.u, a.n) THEN {} ELSE {"sat.count_spurious_refusal"}
           [] e.op = "apply" -> IF e.expect_ok THEN {"op.alias_rejected"} ELSE {}
-          [] OTHER -> IF e.expect_ok THEN {"op.rejected"} ELSE {})
+          [] OTHER -> IF e.expect_ok THEN {"op.rejected." \o e.op} ELSE {})
 
 Verdict(e, s0, t0) ==
   IF ~(AllWellFormed(t0) /\ AllWellFormed(s0))
@@ -133,6 +146,7 @@ Verdict(e, s0, t0) ==
            t == WithD(t0)
        IN Struct(t)
           \cup (IF FrameOK(s, t) THEN {} ELSE {FrameName(e)})
+          \cup (IF "views" \in DOMAIN e /\ ~ViewsOK(e, t) THEN {"decl.views"} ELSE {})
           \cup (IF e.exc = "" THEN OpClauses(e, s, t) ELSE RaisedClauses(e, s, t))
 
 Ev(i) == Traces[tid].events[i]
